@@ -75,6 +75,11 @@ def run_case(case):
         return {"o": "excluded", "skip": "12:xx (or 0:xx) clock directly followed by German 'am <day>' (am/pm ambiguity, excluded by the property)", "nt": False}
     if aname == "C am D" and key in ("h:mm am", "h:mmam", "h:mm a.m.", "h.mm am", "hh:mm AM", "h am", "ham", "h a.m.", "H o'clock"):
         return {"o": "excluded", "skip": "German connector 'am' after an English am/pm or o'clock suffix ('8 am am montag'): language mix nobody writes, not part of the grammar", "nt": False}
+    import re as _re
+
+    mdot = _re.match(r"^(\d{1,2})\.(\d{2})\b", c)
+    if mdot and 1 <= int(mdot.group(2)) <= 12 and 1 <= int(mdot.group(1)) <= 31:
+        return {"o": "excluded", "skip": "dotted clock 'H.MM' with MM <= 12 also reads as day.month (12.05 = 12 May): genuinely ambiguous next to a day", "nt": False}
     D = _p(d, ts, True)
     T = _p(c, ts, False)
     if not is_date(D):
@@ -103,5 +108,11 @@ def run_case(case):
         if X0 is not None and X0[0] == "T":
             X0 = X0[:5] + (X0[5] or 0,) + X0[6:]
         cause = "depth_limit_truncation" if X0 == exp else "other"
-        out["v"] = [viol({"kind": why, "arrangement": aname, "notation": key, "day": d, "cause": cause}, "{!r} @{} -> {} expected {} (day alone {}, clock alone {})".format(text, ts, fmt(X), fmt(exp), fmt(D), fmt(T)), exp, X)]
+        out["keys"] = ["{}|{}|{}|{}".format(cause, aname, key, d)]
+        out["v"] = [viol({"kind": why, "arrangement": aname, "notation": key, "day": d, "cause": cause, "combo": "{}|{}|{}".format(aname, key, d)}, "{!r} @{} -> {} expected {} (day alone {}, clock alone {})".format(text, ts, fmt(X), fmt(exp), fmt(D), fmt(T)), exp, X)]
     return out
+
+
+def finalize(agg, tier, seed):
+    # every (cause | arrangement | notation | day) combination that failed in this run, listed (the known-findings file names them one by one)
+    agg.extra["failing_combinations"] = sorted(agg.keys)
